@@ -477,6 +477,10 @@ structure Req where
 inductive HandlerRes
   | ret (vals : List (Str × Val))
   | err (code : Option Nat)      -- raises UpnpActionError(error_code=code)
+  /-- the library's own idiom (contrib/dummy_router.py): for the keys in `asVar` the handler assigns the
+      value to the out-argument's related state variable and returns that `UpnpStateVariable` object;
+      `_create_action_response` then writes its `upnp_value` -/
+  | retVars (vals : List (Str × Val)) (asVar : List Str)
 
 abbrev Handler := Str → List (Str × Val) → HandlerRes
 
@@ -567,6 +571,28 @@ def argsValid (fs : Facts) (act : SAct) (kw : PyDict Str Val) : Bool :=
     | some v => schemaOk fs a.var v
     | none => false
 
+/-- assigning `state_variable.value = v` inside the handler validates: every value returned in
+    variable form passes the schema of its out-argument's variable (else `UpnpValueError` is raised
+    *inside* the handler and `action_handler` answers fault 402) -/
+def asVarValid (fs : Facts) (act : SAct) (vals : List (Str × Val)) (asVar : List Str) : Bool :=
+  asVar.all fun k => match act.outs.find? (fun a => a.name = k), PyDict.get? vals k with
+    | some a, some v => schemaOk fs a.var v
+    | _, _ => true
+
+/-- what `action_handler` answers for the handler's result -/
+def renderResult (fs : Facts) (stype : Str) (act : SAct) : HandlerRes → Outcome
+  | .err code => .resp 500 (faultDoc (match code with | some c => if c = 0 then 501 else c | none => 501))
+  | .ret vals =>
+    match responseKids fs act vals with
+    | .ok ks => .resp 200 (envelope [.node (responseTag stype act.name) [] none ks])
+    | .error e => .unhandled e.toList
+  | .retVars vals asVar =>
+    if !asVarValid fs act vals asVar then .resp 500 (faultDoc 402) else
+    -- a variable's `upnp_value` is `coerce_upnp(value)`: the same text as for the plain value
+    match responseKids fs act vals with
+    | .ok ks => .resp 200 (envelope [.node (responseTag stype act.name) [] none ks])
+    | .error e => .unhandled e.toList
+
 /-- `action_handler` -/
 def serverHandle (fs : Facts) (stype : Str) (acts : List SAct) (h : Handler) (r : Req) : Outcome :=
   match parseActionBody fs acts r with
@@ -576,12 +602,7 @@ def serverHandle (fs : Facts) (stype : Str) (acts : List SAct) (h : Handler) (r 
     if !(act.ins.all fun a => PyDict.contains kw a.name) then .unhandled "UpnpError".toList
     else if !argsValid fs act kw
     then .resp 500 (faultDoc 402)
-    else match h act.name kw with
-      | .err code => .resp 500 (faultDoc (match code with | some c => if c = 0 then 501 else c | none => 501))
-      | .ret vals =>
-        match responseKids fs act vals with
-        | .ok ks => .resp 200 (envelope [.node (responseTag stype act.name) [] none ks])
-        | .error e => .unhandled e.toList
+    else renderResult fs stype act (h act.name kw)
 
 /-- the keyword arguments with which `action_handler` calls the action's handler (`none` = the
     handler is not reached) -/
